@@ -430,7 +430,7 @@ class Stepped(object):
     def __init__(self, backend, keys, init, op, wd, noinit):
         # history: the initial entries have been overwritten once (a sqlite table keeps a row per store, a directory entry
         # has been replaced); linger: a process that has finished its operation keeps its handle and stays alive, idle
-        spec = {'init': init, 'op': op, 'keys': keys, 'noinit': noinit, 'history': True, 'linger': True}
+        spec = {'init': init, 'op': op, 'keys': keys, 'noinit': noinit, 'history': True, 'linger': True, 'rseed': 20260929}
         self.p = subprocess.Popen([common.PY, '-m', 'harness.fs_worker', common.REPO, backend, wd, 'step', json.dumps(spec)],
                                   stdin=subprocess.PIPE, stdout=subprocess.PIPE, stderr=subprocess.PIPE, text=True, env=worker_env(), cwd=wd)
         if self.p.stdout.readline().strip() != 'ready':
